@@ -209,7 +209,11 @@ EventViol(e, D2, ta) ==
     IF e.op = "call"
     THEN IF NodeExists(D, <<e.c[1], e.c[2], e.c[3], <<>>>>)
          THEN CallLabels(Tag, D, NodeOfEv(D, e), e.res, data, dl, e.fx,
-                         Opt(Tr.hdr, "maxdepth", 0), ta)
+                         Opt(Tr.hdr, "maxdepth", 0),
+                         \* (KF1) the result of an element that holds nothing itself -- an
+                         \* uncached cells -- is tainted when it consumed a tainted value
+                         IF CalledThrough(D, NodeOfEv(D, e)) \cap (taint \cup ta) # {}
+                         THEN ta \cup {NodeOfEv(D, e)} ELSE ta)
               \cup (IF "tb" \in DOMAIN e THEN TracebackLabels(Tag, e.res, IF "tbx" \in DOMAIN e THEN e.tbx ELSE ChainOf(e.fx), e.tb) ELSE {})
          ELSE {}
     ELSE IF ~Accepted(e)
